@@ -1,5 +1,6 @@
 """Property -> rule families.  Each entry is a list of callables taking the Run context."""
 import rf_alloc, rf_state, rf_tables, rf_sig, rf_union, rf_flow, rf_vocab, rf_mir2c, rf_code, rf_bounds, rf_fold, rf_proto, rf_dispatch, rf_keys, rf_abi, rf_x86, rf_inline, rf_templates
+import rf_iface
 from lib import facts as F
 
 
@@ -244,6 +245,8 @@ def c03_rf11(run):
     rf_dispatch.rf7g(run)
     run.min_instances('RF7g', 60)
     rf_code.rf4d(run)
+    rf_iface.rf31a(run)
+    rf_iface.rf31b(run)
 
 
 def c06_rf11(run):
